@@ -151,6 +151,7 @@ _COST = {
     "phpass": lambda h: H64.index(h[3]),
     "scram": lambda h: int(re.match(r"^\$scram\$(\d+)\$", h).group(1)),
     "bsdi_crypt": lambda h: sum(H64.index(c) << (6 * i) for i, c in enumerate(h[1:5])),
+    "bcrypt_sha256": lambda h: int(m.group(1)) if (m := re.match(r"^\$bcrypt-sha256\$v=2,t=2[ab],r=(\d+)\$", h)) else int(re.match(r"^\$bcrypt-sha256\$2[ab],(\d+)\$", h).group(1)),
     "ldap_pbkdf2_sha256": lambda h: int(re.match(r"^\{PBKDF2-SHA256\}(\d+)\$", h).group(1)),
     "django_pbkdf2_sha256": lambda h: int(h.split("$")[1]),
 }
@@ -161,8 +162,11 @@ def cost_of(scheme, hash_):
     return f(hash_) if f else None
 
 
-def own_flag(scheme, hash_):
+def own_flag(scheme, hash_, opts=None):
     """format-specific 'needs update' flags documented by the formats themselves"""
+    if scheme == "bcrypt_sha256":
+        version = 2 if hash_.startswith("$bcrypt-sha256$v=2,") else 1
+        return version < int((opts or {}).get("version", 2))       # a hash of an older layout than the configured one
     if scheme == "bsdi_crypt":
         return cost_of(scheme, hash_) % 2 == 0
     if scheme == "bcrypt" and hash_.startswith("$2a$") and len(hash_) > 28:
@@ -184,4 +188,4 @@ def needs_update(cfg, scheme, cat, hash_, limits):
             return True
         if mx and c > mx:
             return True
-    return own_flag(scheme, hash_)
+    return own_flag(scheme, hash_, scheme_opts(cfg, scheme, cat))
